@@ -389,6 +389,8 @@ def check(ctx):
     for cfgname in ctx.configs(quick=('base',), thorough=('base', 'wire', 'nostd')):
         f = ctx.facts(cfgname)
         rep.cur_config = cfgname
+        from . import common as _common
+        _common.check_frame(f, rep, 'C13-R0')
         eff = Effects(f)
         common.check_derives(f, rep, 'C13-R0')
         r1_bumps(ctx, f, rep, eff)
